@@ -54,29 +54,53 @@ def map_keys(hm):
 
 def guard_dependency(prog):
     """the statements that decide acceptance of an int key may use the key only in comparisons, bit_length() and as the
-    dictionary key: returns the list of other uses (empty = the class-domain enumeration is complete)"""
+    dictionary key - directly or inside helpers of the package the key is handed to: returns the list of other uses (empty = the
+    class-domain enumeration is complete)"""
     f = prog.method('HashMap', 'set_int_key')
-    pname = f.node.args.args[1].arg
-    parents = {}
-    for n in ast.walk(f.node):
-        for c in ast.iter_child_nodes(n):
-            parents[c] = n
-    bad = []
-    for n in ast.walk(f.node):
-        if isinstance(n, ast.Name) and n.id == pname and isinstance(n.ctx, ast.Load):
-            p = parents.get(n)
-            if isinstance(p, ast.Compare):
-                continue
-            if isinstance(p, ast.Attribute) and p.attr == 'bit_length':
-                continue
-            if isinstance(p, ast.Subscript) and p.slice is n and isinstance(p.ctx, ast.Store):
-                continue
-            if isinstance(p, ast.Dict) and any(k is n for k in p.keys):
-                continue
-            if isinstance(p, ast.UnaryOp) and isinstance(p.op, ast.USub) and isinstance(parents.get(p), ast.Compare):
-                continue
-            bad.append(ast.unparse(p)[:60])
-    return bad
+
+    def uses(fn_node, pname, cls, module, depth):
+        parents = {}
+        for n in ast.walk(fn_node):
+            for c in ast.iter_child_nodes(n):
+                parents[c] = n
+        bad = []
+        for n in ast.walk(fn_node):
+            if isinstance(n, ast.Name) and n.id == pname and isinstance(n.ctx, ast.Load):
+                p = parents.get(n)
+                if isinstance(p, ast.Compare):
+                    continue
+                if isinstance(p, ast.Attribute) and p.attr == 'bit_length':
+                    continue
+                if isinstance(p, ast.Subscript) and p.slice is n and isinstance(p.ctx, ast.Store):
+                    continue
+                if isinstance(p, ast.Dict) and any(k is n for k in p.keys):
+                    continue
+                if isinstance(p, ast.UnaryOp) and isinstance(p.op, ast.USub) and isinstance(parents.get(p), ast.Compare):
+                    continue
+                if isinstance(p, ast.Return) and depth > 0:
+                    bad.append(f'returned by the helper: {ast.unparse(p)[:50]}')
+                    continue
+                if isinstance(p, ast.Call) and depth < 3 and any(a is n for a in p.args):
+                    # handed to a helper of the package: the helper's parameter is subject to the same rule
+                    callee, skip = None, 0
+                    fn_ = p.func
+                    if isinstance(fn_, ast.Attribute) and isinstance(fn_.value, ast.Name) and fn_.value.id in ('self', 'cls') and cls is not None:
+                        oc, m = prog.find_method(cls, fn_.attr)
+                        if m is not None:
+                            callee = (m, oc, oc.module)
+                            skip = 0 if 'staticmethod' in [getattr(d, 'id', getattr(d, 'attr', None)) for d in m.decorator_list] else 1
+                    elif isinstance(fn_, ast.Name) and module in prog.modules and fn_.id in prog.modules[module].funcs:
+                        g = prog.modules[module].funcs[fn_.id]
+                        callee = (g.node, None, module)
+                    if callee is not None:
+                        idx = [i for i, a in enumerate(p.args) if a is n][0] + skip
+                        params = callee[0].args.args
+                        if idx < len(params):
+                            bad += uses(callee[0], params[idx].arg, callee[1], callee[2], depth + 1)
+                            continue
+                bad.append(ast.unparse(p)[:60])
+        return bad
+    return uses(f.node, f.node.args.args[1].arg, f.cls, f.module, 0)
 
 
 def map_writers(prog):
@@ -602,5 +626,11 @@ def check_lengths(run, prog):
             run.fail('D3', 'write_edge[child length]', f'label {lab!r}: {type(e).__name__} {e}', prog.where(we))
             continue
         sizes = [x[0].v for x in seen2 if x and isinstance(x[0], K)]
+        if not seen2:
+            # the writer does not descend by calling itself (an explicit work stack, ...): nothing to observe at call boundaries; the key
+            # sizes it hands down are decided by the round trips of D2 and the canonical trees of C10.D3 (every small width, where every step changes a field width)
+            run.info(f'write_edge[label {lab!r}]: no recursive descent to observe - child key sizes are decided by D2 / C10.D3')
+            run.ok('D3', f'writer[label {lab!r}] (not recursive)')
+            continue
         ok = sizes == [20 - len(lab) - 1] * 2
         run.check(ok, 'D3', f'writer[label {lab!r}]' if ok else 'write_edge[child length]', f'children written with key size {sizes}, expected 2 x {20 - len(lab) - 1}', prog.where(we))
